@@ -844,6 +844,7 @@ impl Entry<EntryIncremental, EntryNew> {
         db_ent: &EntrySealedCommitted,
         schema: &dyn SchemaTransaction,
         trim_cid: &Cid,
+        txn_cid: &Cid,
     ) -> EntryIncrementalCommitted {
         use crate::repl::entry::State;
 
@@ -895,28 +896,47 @@ impl Entry<EntryIncremental, EntryNew> {
 
                             match (self.attrs.get(attr_name), db_ent.attrs.get(attr_name)) {
                                 (Some(vs_left), Some(vs_right)) if take_left => {
-                                    changes.insert(attr_name.clone(), cid_left.clone());
                                     #[allow(clippy::todo)]
                                     if let Some(merged_attr_state) =
                                         vs_left.repl_merge_valueset(vs_right, trim_cid)
                                     {
                                         // NOTE: This is for special attr types that need to merge
                                         // rather than choose content.
+                                        //
+                                        // If the merge produced content that differs from what the
+                                        // newer side holds under its cid, no other replica has seen
+                                        // this state under that cid. It must be stamped with our
+                                        // transaction cid, else it is never supplied onward and
+                                        // replicas diverge (sessions / revocations get lost).
+                                        if &merged_attr_state == vs_left {
+                                            changes.insert(attr_name.clone(), cid_left.clone());
+                                        } else {
+                                            changes.insert(attr_name.clone(), txn_cid.clone());
+                                        }
                                         eattrs.insert(attr_name.clone(), merged_attr_state);
                                     } else {
+                                        changes.insert(attr_name.clone(), cid_left.clone());
                                         eattrs.insert(attr_name.clone(), vs_left.clone());
                                     }
                                 }
                                 (Some(vs_left), Some(vs_right)) => {
-                                    changes.insert(attr_name.clone(), cid_right.clone());
                                     #[allow(clippy::todo)]
                                     if let Some(merged_attr_state) =
                                         vs_right.repl_merge_valueset(vs_left, trim_cid)
                                     {
                                         // NOTE: This is for special attr types that need to merge
                                         // rather than choose content.
+                                        //
+                                        // As above: merged content that differs from the newer
+                                        // (right) side is new state and needs our transaction cid.
+                                        if &merged_attr_state == vs_right {
+                                            changes.insert(attr_name.clone(), cid_right.clone());
+                                        } else {
+                                            changes.insert(attr_name.clone(), txn_cid.clone());
+                                        }
                                         eattrs.insert(attr_name.clone(), merged_attr_state);
                                     } else {
+                                        changes.insert(attr_name.clone(), cid_right.clone());
                                         eattrs.insert(attr_name.clone(), vs_right.clone());
                                     }
                                 }
